@@ -805,7 +805,7 @@ def mr_nearmiss(work, binary, verdict, stats, seed):
         stats["near_miss_schedules"] = [x["id"] for x in lib]
 
 
-MR_BASE = {"ufrags": ["u1", "u2"], "fams": ["4", "6"], "srcs": ["s1", "m1", "s6"], "kinds": ["data", "u1", "u2", "ux"], "writers": ["w1"],
+MR_BASE = {"ufrags": ["u1", "u2"], "fams": ["4", "6"], "srcs": ["s1", "m1", "s6"], "kinds": ["data", "u1", "u2", "ux", "u1+"], "writers": ["w1"],
            "maxconns": 3, "stale": True, "muxclose": True, "mode": "seq"}
 
 
@@ -825,7 +825,7 @@ def mr_run(work, binary, verdict, stats, tier, seed):
     cex_a2 = dict(conc_a, grams=1, stale=True, ufrags=["u1"], maxconns=1, defects=["a"])     # the stale-handle form, through the gates
     cex_c = dict(MR_BASE, ops=5, defects=["c"])
     cex_d = dict(conc_b, srcs=["s1"], grams=1, closes=0, defects=["d"])
-    probe_seq = ["DispatchOp(%s,%s)" % (x, k) for x in ("s1", "m1", "s6") for k in ("data", "u1", "u2")]
+    probe_seq = ["DispatchOp(%s,%s)" % (x, k) for x in ("s1", "m1", "s6") for k in ("data", "u1", "u2", "u1+")]
     probe_conc = ["DRead(s1,data)", "DLookup", "DUfrag", "DEnq", "DPut", "DRead(s1,u1)", "DLookup", "DUfrag", "DEnq", "DPut"]
     jobs = [lambda: mr_config(work, binary, verdict, stats, seed, "MuxRoute_seq", seqc, 1500),
             lambda: mr_config(work, binary, verdict, stats, seed, "MuxRoute_conc_2conns", conc_a, 1500),
